@@ -9,7 +9,9 @@ Tr == Traces[tid]
 ToTbl(q) == [i \in 0 .. (Len(q) - 1) |-> q[i + 1]]
 N == Len(Tr[1].tbl)
 TInit == tid \in 1 .. Len(Traces) /\ l = 2 /\ Traces[tid][1].a = "Init" /\ s = MC0(ToTbl(Traces[tid][1].tbl), Len(Traces[tid][1].tbl))
-Obs(e, r) == /\ e.ret = r.ret /\ e.wrote = r.wrote /\ ToTbl(e.tbl) = r.s.tbl
+(* "error": how the call ends is left open (the code raises; returning a status would do) - what counts is that the bookkeeping is not touched *)
+RetSame(a, m) == a = m \/ (m = "error" /\ a # "pending")
+Obs(e, r) == /\ RetSame(e.ret, r.ret) /\ e.wrote = r.wrote /\ ToTbl(e.tbl) = r.s.tbl
 TNext ==
   /\ l <= Len(Tr)
   /\ LET e == Tr[l] IN
